@@ -8,6 +8,7 @@ import (
 	"go/types"
 	"slices"
 	"strings"
+	"sync"
 
 	"golang.org/x/tools/go/ssa"
 )
@@ -51,7 +52,8 @@ type frame struct {
 	caller           *frame
 	fn               *ssa.Function
 	block, prevBlock *ssa.BasicBlock
-	env              map[ssa.Value]Value
+	env              []Value
+	lay              *fnLayout
 	locals           []Value
 	defers           *deferred
 	result           Value
@@ -68,17 +70,65 @@ func (fr *frame) get(key ssa.Value) Value {
 	case *ssa.Function, *ssa.Builtin:
 		return key
 	case *ssa.Const:
-		return constValue(key)
+		if v, ok := constCache.Load(key); ok {
+			return v
+		}
+		v := constValue(key)
+		constCache.Store(key, v)
+		return v
 	case *ssa.Global:
 		if r, ok := fr.ip.globals[key]; ok {
 			return r
 		}
 		return fr.ip.globalCell(key)
 	}
-	if r, ok := fr.env[key]; ok {
-		return r
+	if i, ok := fr.lay.idx[key]; ok {
+		if r := fr.env[i]; r != nil || true {
+			return r
+		}
 	}
 	panic(fmt.Sprintf("get: no value for %T: %v in %s", key, key.Name(), fr.fn))
+}
+
+func (fr *frame) set(key ssa.Value, v Value) { fr.env[fr.lay.idx[key]] = v }
+
+type fnLayout struct {
+	idx map[ssa.Value]int
+	n   int
+}
+
+var layoutCache sync.Map // *ssa.Function -> *fnLayout
+var constCache sync.Map  // *ssa.Const -> Value
+
+func layoutOf(fn *ssa.Function) *fnLayout {
+	if v, ok := layoutCache.Load(fn); ok {
+		return v.(*fnLayout)
+	}
+	l := &fnLayout{idx: map[ssa.Value]int{}}
+	add := func(v ssa.Value) {
+		if _, ok := l.idx[v]; !ok {
+			l.idx[v] = l.n
+			l.n++
+		}
+	}
+	for _, p := range fn.Params {
+		add(p)
+	}
+	for _, fv := range fn.FreeVars {
+		add(fv)
+	}
+	for _, loc := range fn.Locals {
+		add(loc)
+	}
+	for _, b := range fn.Blocks {
+		for _, in := range b.Instrs {
+			if v, ok := in.(ssa.Value); ok {
+				add(v)
+			}
+		}
+	}
+	layoutCache.Store(fn, l)
+	return l
 }
 
 func (ip *Interp) globalCell(g *ssa.Global) *Value {
@@ -152,24 +202,24 @@ func (fr *frame) visitInstr(instr ssa.Instruction) (ret bool) {
 	switch instr := instr.(type) {
 	case *ssa.DebugRef:
 	case *ssa.UnOp:
-		fr.env[instr] = ip.unop(instr, fr.get(instr.X))
+		fr.set(instr, ip.unop(instr, fr.get(instr.X)))
 	case *ssa.BinOp:
-		fr.env[instr] = ip.binop(instr.Op, instr.X.Type(), fr.get(instr.X), fr.get(instr.Y))
+		fr.set(instr, ip.binop(instr.Op, instr.X.Type(), fr.get(instr.X), fr.get(instr.Y)))
 	case *ssa.Call:
 		fn, args := fr.prepareCall(&instr.Call)
-		fr.env[instr] = ip.call(fr, instr.Pos(), fn, args)
+		fr.set(instr, ip.call(fr, instr.Pos(), fn, args))
 	case *ssa.ChangeInterface:
-		fr.env[instr] = fr.get(instr.X)
+		fr.set(instr, fr.get(instr.X))
 	case *ssa.ChangeType:
-		fr.env[instr] = fr.get(instr.X)
+		fr.set(instr, fr.get(instr.X))
 	case *ssa.Convert:
-		fr.env[instr] = ip.conv(instr.Type(), instr.X.Type(), fr.get(instr.X))
+		fr.set(instr, ip.conv(instr.Type(), instr.X.Type(), fr.get(instr.X)))
 	case *ssa.MakeInterface:
-		fr.env[instr] = Iface{t: instr.X.Type(), v: fr.get(instr.X)}
+		fr.set(instr, Iface{t: instr.X.Type(), v: fr.get(instr.X)})
 	case *ssa.Extract:
-		fr.env[instr] = fr.get(instr.Tuple).(Tuple)[instr.Index]
+		fr.set(instr, fr.get(instr.Tuple).(Tuple)[instr.Index])
 	case *ssa.Slice:
-		fr.env[instr] = ip.sliceOp(instr, fr.get(instr.X), fr.get(instr.Low), fr.get(instr.High), fr.get(instr.Max))
+		fr.set(instr, ip.sliceOp(instr, fr.get(instr.X), fr.get(instr.Low), fr.get(instr.High), fr.get(instr.Max)))
 	case *ssa.Return:
 		switch len(instr.Results) {
 		case 0:
@@ -217,47 +267,47 @@ func (fr *frame) visitInstr(instr ssa.Instruction) (ret bool) {
 		ip.ex.endPath("unsupported", "go statement at "+ip.prog.Fset.Position(instr.Pos()).String())
 	case *ssa.MakeChan:
 		n := ip.concInt(fr.get(instr.Size), "chan size")
-		fr.env[instr] = &ChanV{cap: int(n)}
+		fr.set(instr, &ChanV{cap: int(n)})
 	case *ssa.Alloc:
 		var addr *Value
 		if instr.Heap {
 			addr = new(Value)
-			fr.env[instr] = addr
+			fr.set(instr, addr)
 			ip.noteAllocCells(addr)
 		} else {
-			addr = fr.env[instr].(*Value)
+			addr = fr.env[fr.lay.idx[instr]].(*Value)
 		}
 		*addr = zero(deref(instr.Type()))
 	case *ssa.MakeSlice:
-		fr.env[instr] = ip.makeSlice(instr, fr.get(instr.Len), fr.get(instr.Cap))
+		fr.set(instr, ip.makeSlice(instr, fr.get(instr.Len), fr.get(instr.Cap)))
 	case *ssa.MakeMap:
 		ip.nextMapID++
-		fr.env[instr] = &MapV{kt: instr.Type().Underlying().(*types.Map).Key(), id: ip.nextMapID}
+		fr.set(instr, &MapV{kt: instr.Type().Underlying().(*types.Map).Key(), id: ip.nextMapID})
 	case *ssa.Range:
-		fr.env[instr] = ip.rangeIter(fr.get(instr.X), instr.X.Type())
+		fr.set(instr, ip.rangeIter(fr.get(instr.X), instr.X.Type()))
 	case *ssa.Next:
-		fr.env[instr] = ip.iterNext(fr.get(instr.Iter))
+		fr.set(instr, ip.iterNext(fr.get(instr.Iter)))
 	case *ssa.FieldAddr:
 		p := fr.get(instr.X).(*Value)
 		if p == nil {
 			ip.throw("invalid memory address or nil pointer dereference")
 		}
-		fr.env[instr] = &(*p).(Struct)[instr.Field]
+		fr.set(instr, &(*p).(Struct)[instr.Field])
 	case *ssa.Field:
-		fr.env[instr] = fr.get(instr.X).(Struct)[instr.Field]
+		fr.set(instr, fr.get(instr.X).(Struct)[instr.Field])
 	case *ssa.IndexAddr:
 		x := fr.get(instr.X)
 		switch x := x.(type) {
 		case Slice:
 			i := ip.indexCheck(fr.get(instr.Index), instr.Index.Type(), len(x.s))
-			fr.env[instr] = &x.s[i]
+			fr.set(instr, &x.s[i])
 		case *Value:
 			if x == nil {
 				ip.throw("invalid memory address or nil pointer dereference")
 			}
 			a := (*x).(Array)
 			i := ip.indexCheck(fr.get(instr.Index), instr.Index.Type(), len(a))
-			fr.env[instr] = &a[i]
+			fr.set(instr, &a[i])
 		default:
 			panic(fmt.Sprintf("unexpected x type in IndexAddr: %T", x))
 		}
@@ -266,16 +316,16 @@ func (fr *frame) visitInstr(instr ssa.Instruction) (ret bool) {
 		switch x := x.(type) {
 		case Array:
 			i := ip.indexCheck(fr.get(instr.Index), instr.Index.Type(), len(x))
-			fr.env[instr] = copyVal(x[i])
+			fr.set(instr, copyVal(x[i]))
 		case string, *SymStr:
 			b := ip.strBytes(x)
 			i := ip.indexCheck(fr.get(instr.Index), instr.Index.Type(), len(b))
-			fr.env[instr] = b[i]
+			fr.set(instr, b[i])
 		default:
 			panic(fmt.Sprintf("unexpected x type in Index: %T", x))
 		}
 	case *ssa.Lookup:
-		fr.env[instr] = ip.lookup(instr, fr.get(instr.X), fr.get(instr.Index))
+		fr.set(instr, ip.lookup(instr, fr.get(instr.X), fr.get(instr.Index)))
 	case *ssa.MapUpdate:
 		m := fr.get(instr.Map).(*MapV)
 		if m == nil {
@@ -283,15 +333,15 @@ func (fr *frame) visitInstr(instr ssa.Instruction) (ret bool) {
 		}
 		ip.mapSet(m, fr.get(instr.Key), fr.get(instr.Value))
 	case *ssa.TypeAssert:
-		fr.env[instr] = ip.typeAssert(instr, fr.get(instr.X).(Iface))
+		fr.set(instr, ip.typeAssert(instr, fr.get(instr.X).(Iface)))
 	case *ssa.MakeClosure:
 		var bindings []Value
 		for _, b := range instr.Bindings {
 			bindings = append(bindings, fr.get(b))
 		}
-		fr.env[instr] = &Closure{instr.Fn.(*ssa.Function), bindings}
+		fr.set(instr, &Closure{instr.Fn.(*ssa.Function), bindings})
 	case *ssa.Select:
-		fr.env[instr] = ip.selectOp(fr, instr)
+		fr.set(instr, ip.selectOp(fr, instr))
 	default:
 		panic(fmt.Sprintf("unexpected instruction: %T", instr))
 	}
@@ -411,35 +461,58 @@ func (ip *Interp) callSSA(caller *frame, pos token.Pos, fn *ssa.Function, args [
 	fr := &frame{ip: ip, caller: caller, fn: fn, depth: depth}
 	ip.fnCount[fn]++
 	if fn.Parent() == nil {
-		name := fn.String()
-		if intr, ok := intrinsics[name]; ok {
+		info := lookupFnInfo(fn, ip)
+		if info.intr != nil {
 			ip.tick(1)
-			return intr(ip, fr, args)
+			return info.intr(ip, fr, args)
 		}
 		if fn.Blocks == nil {
-			ip.ex.endPath("unsupported", "no code and no model for function "+name)
+			ip.ex.endPath("unsupported", "no code and no model for function "+fn.String())
 		}
-		if fn.Pkg != nil && !ip.interpretable(fn.Pkg.Pkg.Path()) {
-			ip.ex.endPath("unsupported", "call into unmodelled package function "+name)
+		if !info.interpretable {
+			ip.ex.endPath("unsupported", "call into unmodelled package function "+fn.String())
 		}
 	}
-	fr.env = make(map[ssa.Value]Value, 16)
+	fr.lay = layoutOf(fn)
+	fr.env = make([]Value, fr.lay.n)
 	fr.block = fn.Blocks[0]
 	fr.locals = make([]Value, len(fn.Locals))
 	for i, l := range fn.Locals {
 		fr.locals[i] = zero(deref(l.Type()))
-		fr.env[l] = &fr.locals[i]
+		fr.set(l, &fr.locals[i])
 	}
 	for i, p := range fn.Params {
-		fr.env[p] = args[i]
+		fr.set(p, args[i])
 	}
 	for i, fv := range fn.FreeVars {
-		fr.env[fv] = env[i]
+		fr.set(fv, env[i])
 	}
 	for fr.block != nil {
 		fr.runFrame()
 	}
 	return fr.result
+}
+
+type fnInfo struct {
+	intr          intrinsic
+	interpretable bool
+}
+
+var fnInfoCache sync.Map // *ssa.Function -> *fnInfo
+
+func lookupFnInfo(fn *ssa.Function, ip *Interp) *fnInfo {
+	if v, ok := fnInfoCache.Load(fn); ok {
+		return v.(*fnInfo)
+	}
+	info := &fnInfo{interpretable: true}
+	if intr, ok := intrinsics[fn.String()]; ok {
+		info.intr = intr
+	}
+	if fn.Pkg != nil && !ip.interpretable(fn.Pkg.Pkg.Path()) {
+		info.interpretable = false
+	}
+	fnInfoCache.Store(fn, info)
+	return info
 }
 
 func (ip *Interp) interpretable(path string) bool {
@@ -515,7 +588,7 @@ func (fr *frame) executePhis() []ssa.Instruction {
 			fr.phitemps = append(fr.phitemps, fr.get(phi.(*ssa.Phi).Edges[predIndex]))
 		}
 		for i, phi := range phis {
-			fr.env[phi.(*ssa.Phi)] = fr.phitemps[i]
+			fr.set(phi.(*ssa.Phi), fr.phitemps[i])
 		}
 	}
 	return nonPhis
